@@ -450,6 +450,16 @@ pub fn main(ctx: &Ctx) -> i32 {
         return r;
     }
     let stats = Arc::new(Stats::default());
+    // regression tier: saved counterexamples first (fixed defects must stay fixed, examples of open findings must
+    // still be recognised as such)
+    let w1 = work.clone();
+    if let Some((p, m)) = rerun_saved_replays::<Case, _>(ctx, &stats, 3, move |c| run_case(c, &w1, seed)) {
+        write_evidence(ctx, &stats, &fin(), 1);
+        println!("violation detail: {}", m);
+        println!("VIOLATION property={} replay={}", ctx.id, p.display());
+        std::fs::remove_dir_all(&work).ok();
+        return 1;
+    }
     let n = ctx.tier.pick(48u32, 600u32);
     let w2 = work.clone();
     let fail = run_cases(ctx, &stats, (|| case_strategy().boxed()) as fn() -> _, n, 6, 12, move |c| run_case(c, &w2, seed));
